@@ -233,14 +233,18 @@ def report(prop, pmod, results, tier, seed, t0):
             for cex in o['failed']:
                 violations.append((o['name'], cex, None))
             if o.get('abstract'):
-                undecided.append((o['name'], 'abstract-counterexample', 'not confirmed natively'))
-            if o['unknown']:
                 led = ledger.get(o['name'])
-                if led and led.get('discharged', 0) >= o['paths']:
+                if led and led.get('discharged', 0) >= led.get('paths', 1) and led.get('paths', 0) > 0:
+                    # the verifier accepted this obligation on the tree the ledger was made from and now refutes it (modulo an
+                    # abstraction: uninterpreted function / float model); no concrete input could be produced
                     violations.append((o['name'], {'obligation': o['name'], 'confirmed': False,
-                                                   'note': 'obligation discharged on the pinned tree is no longer accepted (solver: unknown on z3 5.1, cvc5 1.0.3, z3 4.8.12)'}, None))
+                                                   'note': 'obligation was discharged on the locked tree (obligations.lock.json) and is now refuted by the solver; '
+                                                           'the counterexample depends on an abstraction and could not be replayed natively',
+                                                   'verifier_output': (o.get('abstract_cex') or [None])[0]}, None))
                 else:
-                    undecided.append((o['name'], 'unknown', 'solver undecided'))
+                    undecided.append((o['name'], 'abstract-counterexample', 'not confirmed natively'))
+            if o['unknown']:
+                undecided.append((o['name'], 'unknown', 'solver undecided (timeout) - not a verdict'))
         # runtime contract checking (bounded stand-in; also guards the engine)
         for fl in fz.get('failures', []):
             # a native failure whose input is covered by a known pin is not a new violation
